@@ -6,13 +6,16 @@ import json, os, shutil, subprocess, sys
 V = os.path.normpath(os.path.join(os.path.dirname(os.path.abspath(__file__)), ".."))
 wt, slug = os.path.abspath(sys.argv[1]), sys.argv[2]
 props = sys.argv[3:]
-src = os.path.join(wt, "seed_out")
+reeval = os.path.exists(os.path.join(wt, "meta.json"))     # `ingest_seed.py seeded/<dir> - [Cxx ...]` re-evaluates a kept seed
+src = wt if reeval else os.path.join(wt, "seed_out")
 meta = json.load(open(os.path.join(src, "meta.json")))
 pid = meta["property"]
-dst = os.path.join(V, "seeded", "%s-%s" % (pid, slug))
+dst = wt if reeval else os.path.join(V, "seeded", "%s-%s" % (pid, slug))
 os.makedirs(dst, exist_ok=True)
-for f in ("patch.diff", "demo.py", "meta.json"):
-    shutil.copy(os.path.join(src, f), os.path.join(dst, f))
+if not reeval:
+    for f in ("patch.diff", "demo.py", "meta.json"):
+        shutil.copy(os.path.join(src, f), os.path.join(dst, f))
+old_checks = meta.get("ran", {}).get("checks", {})
 r = subprocess.run([sys.executable, os.path.join(V, "harness", "try_seed.py"), dst] + props, capture_output=True, text=True)
 print(r.stdout[-3000:], r.stderr[-2000:])
 subprocess.run("git -C %s checkout -- evidence" % V, shell=True)
@@ -24,10 +27,10 @@ def cls(c):
     return "infrastructure rc=%s" % c["rc"]
 meta["tests_pass"] = res["tests"].startswith("109 passed")
 meta["ran"] = {"tests": res["tests"], "demo_clean_rc": res["demo_clean_rc"], "demo_patched_rc": res["demo_patched_rc"],
-               "checks": {p: cls(c) for p, c in sorted(res["checks"].items())},
+               "checks": dict(sorted({**old_checks, **{p: cls(c) for p, c in res["checks"].items()}}.items())),
                "how": "git -C /repo apply patch.diff; pytest (109 must pass); demo.py must exit 1 (0 on the unchanged tree); ./check <ids> --tier quick; git -C /repo checkout -- .   (harness/try_seed.py)"}
 json.dump(meta, open(os.path.join(dst, "meta.json"), "w"), indent=1)
 ok = meta["tests_pass"] and res["demo_clean_rc"] == 0 and res["demo_patched_rc"] == 1
 print("CONFIRMED" if ok else "NOT CONFIRMED", pid, slug, "own check:", meta["ran"]["checks"].get(pid))
-if ok and "--keep" not in sys.argv:
+if ok and "--keep" not in sys.argv and not reeval:
     subprocess.run("git -C /repo worktree remove --force %s" % wt, shell=True)
